@@ -102,6 +102,26 @@ Holds(W, t, a) ==
     [] OTHER -> FALSE
 
 (***************************************************************************)
+(* C14: subtype relation between *type objects passed as arguments*.       *)
+(* Element terms: [k |-> "cls", c] (c in the base class poset banc),       *)
+(* [k |-> "gen", o, args : Seq(element)] (parametrised generic, origin o), *)
+(* [k |-> "any"] (typing.Any counts as object = class 1).                  *)
+(* A class is a subtype of its superclasses; a parametrised generic is a   *)
+(* subtype of every superclass of its origin, and of a generic with a      *)
+(* same-or-super origin and argument-wise super types.                     *)
+(***************************************************************************)
+RECURSIVE SubElem(_, _, _)
+SubElem(banc, x, y) ==
+  IF y.k = "any" THEN SubElem(banc, x, [k |-> "cls", c |-> 1])
+  ELSE IF x.k = "any" THEN SubElem(banc, [k |-> "cls", c |-> 1], y)
+  ELSE IF x.k = "cls" /\ y.k = "cls" THEN y.c \in banc[x.c]
+  ELSE IF x.k = "gen" /\ y.k = "cls" THEN y.c \in banc[x.o]
+  ELSE IF x.k = "gen" /\ y.k = "gen" THEN
+       /\ y.o \in banc[x.o] /\ Len(x.args) = Len(y.args)
+       /\ \A j \in DOMAIN x.args : SubElem(banc, x.args[j], y.args[j])
+  ELSE FALSE
+
+(***************************************************************************)
 (* Declared order between *class* terms, as the statement of C02 uses it.  *)
 (***************************************************************************)
 SameOrSubCls(W, ta, tb) == ta.k = "cls" /\ tb.k = "cls" /\ IsSub(W, ta.c, tb.c)
